@@ -617,6 +617,26 @@ def modularize(rng, ast, max_subs=3, prefer_stateful=True, names=('p1', 'p2', 'p
     return order_defs(defs), top
 
 
+def add_alias(rng, defs, top, name='q1'):
+    """an alias sub-specification: a bare non-negative constant ('q1 = 3.0;') or a bare variable ('q1 = a;') gets a name of its
+    own; every occurrence of the leaf is replaced by the name, and the literal -c by -(q1) (the same number, used with both
+    signs). Returns (defs, top), unchanged when there is no usable leaf."""
+    import json as _json
+    leaves = sorted(set(_json.dumps(['const', abs(x[1])] if x[0] == 'const' else x)
+                        for n_, a in defs + [['', top]] for x in walk(a) if x[0] in ('const', 'var')))
+    if not leaves:
+        return defs, top
+    leaf = _json.loads(leaves[rng.randrange(len(leaves))])
+
+    def al(n):
+        if n == leaf:
+            return ['ref', name]
+        if leaf[0] == 'const' and leaf[1] > 0 and n[0] == 'const' and n[1] == -leaf[1]:
+            return ['neg', ['ref', name]]
+        return with_children(n, [al(c) for c in children(n)])
+    return [[name, leaf]] + [[n_, al(a)] for n_, a in defs], al(top)
+
+
 def order_defs(defs):
     """topological order so that every definition only refers to earlier ones"""
     d = dict((n, a) for n, a in defs)
